@@ -7,7 +7,9 @@ from contracts import moves_static as MS
 
 
 def deductive(tier="quick", seed=0):
-    d = Deductive()
+    from pyvc.driver import run_tasks
+
+    d = run_tasks(MS.c15_tasks())
     d.obligations.extend(MS.c15_obligations())
     for o in d.obligations:
         f = d.functions.setdefault(o.function, {"sha256": _sha(o.function), "tasks": ["static"], "obligations": 0, "discharged": 0,
